@@ -757,13 +757,8 @@ def conelp(c, G, h, dims = None, A = None, b = None, primalstart = None,
             and relgap <= RELTOL ))) and KKTREG is None:
 
             # The initial points we constructed happen to be feasible and
-            # optimal.
-
-            ind = dims['l'] + sum(dims['q'])
-            for m in dims['s']:
-                misc.symm(s, m, ind)
-                misc.symm(z, m, ind)
-                ind += m**2
+            # optimal (unless the rank assumptions do not hold and the 
+            # residuals are not small).
 
             # rx = A'*y + G'*z + c
             rx = xnewcopy(c)
@@ -787,21 +782,28 @@ def conelp(c, G, h, dims = None, A = None, b = None, primalstart = None,
             dres = resx/resx0
             cx, by, hz = xdot(c,x), ydot(b,y), misc.sdot(h, z, dims)
 
-            if show_progress:
-                print("Optimal solution found.")
-            return { 'x': x, 'y': y, 's': s, 'z': z,
-                'status': 'optimal',
-                'gap': gap,
-                'relative gap': relgap,
-                'primal objective': cx,
-                'dual objective': -(by + hz),
-                'primal infeasibility': pres,
-                'primal slack': -ts,
-                'dual slack': -tz,
-                'dual infeasibility': dres,
-                'residual as primal infeasibility certificate': None,
-                'residual as dual infeasibility certificate': None,
-                'iterations': 0 }
+            if pres <= FEASTOL and dres <= FEASTOL:
+                ind = dims['l'] + sum(dims['q'])
+                for m in dims['s']:
+                    misc.symm(s, m, ind)
+                    misc.symm(z, m, ind)
+                    ind += m**2
+
+                if show_progress:
+                    print("Optimal solution found.")
+                return { 'x': x, 'y': y, 's': s, 'z': z,
+                    'status': 'optimal',
+                    'gap': gap,
+                    'relative gap': relgap,
+                    'primal objective': cx,
+                    'dual objective': -(by + hz),
+                    'primal infeasibility': pres,
+                    'primal slack': -ts,
+                    'dual slack': -tz,
+                    'dual infeasibility': dres,
+                    'residual as primal infeasibility certificate': None,
+                    'residual as dual infeasibility certificate': None,
+                    'iterations': 0 }
 
         if ts >= -1e-8 * max(nrms, 1.0):
             a = 1.0 + ts
